@@ -87,16 +87,31 @@ async fn handle_connection(
             // handler set its own; no response query buffer either way.
             let echo = crate::message::response_echo_query(&resp, view.query);
             if let Some(dur) = write_timeout {
-                timeout(dur, write_view_response(&mut writer, &resp, echo))
-                    .await
-                    .ok();
-                timeout(dur, writer.flush()).await.ok();
+                // A write or flush that fails or times out may leave part of the
+                // frame on the wire (or in the buffer). Nothing may follow a torn
+                // frame on this connection, so it ends here instead of serving
+                // the next request behind it.
+                match timeout(dur, write_view_response(&mut writer, &resp, echo)).await {
+                    Ok(written) => written?,
+                    Err(_) => return Err(write_timed_out()),
+                }
+                match timeout(dur, writer.flush()).await {
+                    Ok(flushed) => flushed?,
+                    Err(_) => return Err(write_timed_out()),
+                }
             } else {
                 write_view_response(&mut writer, &resp, echo).await?;
                 writer.flush().await?;
             }
         }
     }
+}
+
+fn write_timed_out() -> RepeError {
+    RepeError::Io(std::io::Error::new(
+        std::io::ErrorKind::TimedOut,
+        "response write timed out; closing the connection",
+    ))
 }
 
 /// Write a query-less response framed with an externally supplied (borrowed)
